@@ -1059,16 +1059,26 @@ func (a *AvailAssurance) Decode(d *Decoder) error {
 func (bf *Bitfield) Decode(d *Decoder) error {
 	cLog(Cyan, "Decoding Bitfield")
 
-	bytes := make([]byte, AvailBitfieldBytes)
-	_, err := d.buf.Read(bytes)
+	octets := make([]byte, AvailBitfieldBytes)
+	n, err := d.buf.Read(octets)
 	if err != nil {
 		return err
 	}
-	cLog(Yellow, "BitField: %x", bytes)
+	if n != len(octets) {
+		return errors.New("not enough data for the bitfield")
+	}
+	cLog(Yellow, "BitField: %x", octets)
 
-	bitfield, err := MakeBitfieldFromByteSlice(bytes)
+	bitfield, err := MakeBitfieldFromByteSlice(octets)
 	if err != nil {
 		return err
+	}
+	// bits beyond CoresCount are padding and must be zero, otherwise the value does not
+	// re-encode to the bytes that were read
+	for i := CoresCount; i < 8*len(octets); i++ {
+		if (octets[i/8]>>(i%8))&1 != 0 {
+			return errors.New("non-zero padding bits in bitfield")
+		}
 	}
 
 	*bf = bitfield
